@@ -7,13 +7,14 @@ Props/C09.lean (the theorems). Tie: channel `tail` — histories "definitions, t
 call at growing depths" against one interpreter with the host functions `trace` and
 `probe`; implementation vs VM model on class/value/trace/stack depths at every probe;
 implementation vs reference evaluator (no tail-call optimisation) on class/value/trace;
-implementation vs closed forms beyond the reference's fuel; and the space oracle (one depth
+implementation vs closed forms beyond the reference's fuel; implementation vs its own unoptimised twin
+(the same function bound by (def ff (fn ...))); and the space oracle (one depth
 triple per probe site over all iterations and all depths of a history)."""
 import json, os, re
 import vcommon as V
 
 META = dict(
-    text="Lean 4. Tail position is defined from the property text as an inductive relation over the abstract syntax (Spec/TailPos.lean: last form of cond arms/default, begin, let, letseq, newScope bodies, last arm of and/or, nested arbitrarily; k = scopes crossed). About the executable model of the generator (Model/Gen.lean, one function per Generate*) it is proved, for bodies of every size and nesting: a self call in tail position is compiled to operands; PrepareCall; RemoveScope x (k+1); Goto 0 (tail_position_gets_tail_sequence, tail_sequence_layout: the pop count is exactly the scopes opened since function entry plus the function scope); a call reached through at least one non-tail step (cond test, non-last statement/arm, let initialiser, array element, def/set right-hand side, assignment side) is compiled to one ordinary CallExpr, never to a jump (tail_flag_only_in_tail_position, with flag_mono: no Generate* ever sets the flag); every inline occurrence is one or the other (self_call_dichotomy). About the VM model (Model/VM.lean) it is proved on the real loop runLoop: from the tail sequence the machine reaches instruction 0 of the same function after k+3 steps with the data, scope and address stack depths of the original entry, fixed and variadic parameter lists, touching neither scope table, heap nor trace (tail_call_reenters_at_entry_depths); hence by induction on the number of iterations every re-entry has the depths of the first (tail_call_constant_space_partial, assuming the body stretch between entry and tail sequence is balanced). Transparency: TcoTransparent (VM model = reference evaluator) is stated, not proved; proved parts (tco_transparent_partial): no continuation is ever dropped, the tail sequence changes only pc/scope stack/packed operands, and the next iteration binds its parameters in a scope that did not exist before, so no scope captured by an earlier closure is written; the pre-fc05fc7 sequence (Goto 1) does write it (legacy_tail_call_rebinds_captured_scope_counterexample). The unit tests run depth 4 and 11 and look at one stack afterwards; the theorems cover every depth and nesting, and the correspondence runs depths 0..10^5 (thorough 10^6) sampling all three stacks at every re-entry.",
+    text="Lean 4. Tail position is defined from the property text as an inductive relation over the abstract syntax (Spec/TailPos.lean: last form of cond arms/default, begin, let, letseq, newScope bodies, last arm of and/or, nested arbitrarily; k = scopes crossed). About the executable model of the generator (Model/Gen.lean, one function per Generate*) it is proved, for bodies of every size and nesting: a self call in tail position is compiled to operands; PrepareCall; RemoveScope x (k+1); Goto 0 when the operand count fits, to one ordinary call (arity error at run time) when it does not (tail_position_gets_tail_sequence, self_call_wrong_arity, tail_sequence_layout: the pop count is exactly the scopes opened since function entry plus the function scope); a call reached through at least one non-tail step (cond test, non-last statement/arm, let initialiser, array element, def/set/assignment right-hand side) is compiled to one ordinary CallExpr, never to a jump (tail_flag_only_in_tail_position, with flag_mono: no Generate* ever sets the flag); every inline occurrence is one or the other (self_call_dichotomy). About the VM model (Model/VM.lean) it is proved on the real loop runLoop: from the tail sequence the machine reaches instruction 0 of the same function after k+3 steps with the data, scope and address stack depths of the original entry, fixed and variadic parameter lists, touching neither scope table, heap nor trace (tail_call_reenters_at_entry_depths); hence by induction on the number of iterations every re-entry has the depths of the first (tail_call_constant_space_partial, assuming the body stretch between entry and tail sequence is balanced). Transparency: TcoTransparent (VM model = reference evaluator) is stated, not proved; proved parts (tco_transparent_partial): no continuation is ever dropped, the tail sequence changes only pc/scope stack/packed operands, and the next iteration binds its parameters in a scope that did not exist before, so no scope captured by an earlier closure is written; the pre-fc05fc7 sequence (Goto 1) does write it (legacy_tail_call_rebinds_captured_scope_counterexample). The unit tests run depth 4 and 11 and look at one stack afterwards; the theorems cover every depth and nesting, and the correspondence runs depths 0..10^5 (thorough 10^6) sampling all three stacks at every re-entry, comparing each shape with the reference evaluator and, on the real code, with the same function bound anonymously (no optimisation).",
     note="Trusted: Lean kernel; axioms propext/Classical.choice/Quot.sound. Model/Gen.lean and Model/VM.lean are hand-written and tied to zygo/generator.go, vm.go, environment.go only by the `tail` (and C02's `eval`) correspondence: differential testing, not proof. Partial: BodyBalanced (the body between function entry and the tail sequence leaves operands/scopes/addresses balanced) is a hypothesis of the space theorem, checked dynamically by the probe oracle on implementation and model, not derived from the generator (that is C04's gen_balanced/checker_sound); TcoTransparent is not proved (needs C02's CompileCorrect for the F3 fragment) and is held by the 3-way correspondence. Tail contexts outside the modelled core (package, return, macro expansions, infix blocks) are not covered by the theorems; `for` parts are non-tail in the model but have no step lemma. Constant space is a statement about the three interpreter stacks, not about Go heap use (closure creation in a loop is not constant-time in this interpreter: GenSymbol scans).",
     technique="Lean 4 theorems over an executable model of generator+VM and an independent definition of tail position; 3-way model/reference/implementation correspondence with stack-depth probes through the line protocol",
     design_ref="DESIGN.md §7 C09, §13; notes/C09.md",
@@ -139,6 +140,50 @@ def judge(rows):
         out.append((op, impl, model_col, spec_col))
     return out, st
 
+def run_tail_channel(seed, tier):
+    """V.run_channel for channel `tail`, with the real code and the Lean driver working at the
+    same time (both are single-threaded and each takes about half of the check's time)."""
+    import threading
+    env = V.goenv()
+    statf = os.path.join(V.BUILD, "tail.%d.stats" % os.getpid())
+    rc, out = V.sh([V.ZYH, "gen", "tail", "-seed", str(seed), "-tier", tier, "-stats", statf], env=env, timeout=3000)
+    if rc != 0:
+        raise RuntimeError("zyh gen tail failed: %s" % out[-2000:])
+    ops = [l for l in out.split("\n") if l]
+    stats = {}
+    try:
+        with open(statf) as f:
+            for l in f:
+                k, _, v = l.rstrip("\n").rpartition(" ")
+                stats[k] = int(v)
+        os.remove(statf)
+    except FileNotFoundError:
+        pass
+    text = "\n".join(ops) + "\n" if ops else ""
+    box = {}
+    def impl_side():
+        try:
+            box["impl"] = V.exec_impl(text, 10800)
+        except Exception as e:          # reported by the caller
+            box["err"] = e
+    th = threading.Thread(target=impl_side)
+    th.start()
+    rc2, out2 = V.sh([V.ZYDRV], stdin=text, timeout=10800)
+    th.join()
+    if "err" in box:
+        raise box["err"]
+    if rc2 != 0:
+        raise RuntimeError("zydrv failed: %s" % out2[-2000:])
+    mlines = out2.split("\n")[:len(ops)]
+    if len(mlines) != len(ops) or len(box["impl"]) != len(ops):
+        raise RuntimeError("answers: impl %d, zydrv %d, ops %d" % (len(box.get("impl", [])), len(mlines), len(ops)))
+    rows = []
+    for op, i, m in zip(ops, box["impl"], mlines):
+        mm, _, ss = m.partition("\t")
+        rows.append((op, i, mm, ss))
+    return rows, stats
+
+
 def run(rep):
     try:
         with open(os.path.join(HERE, "notes", "C09.known.json")) as f:
@@ -158,7 +203,8 @@ def run(rep):
                                   "TcoTransparent (VM model = reference evaluator on all well-formed programs): held by the `tail` correspondence")
     rep.assumptions += [
         "Model/Gen.lean, Model/VM.lean are hand-written; tied to the Go code by the `tail`/`eval` correspondences only (class, value, trace, four stack depths per text, three stack depths at every probe)",
-        "the model follows /repo with the proposed fixes C09-01 (tail flag leak) and C09-02 (tail-call arity); on a tree without them the exhibiting inputs are reported as KNOWN-FINDING (notes/C09.known.json, keyed by op line)",
+        "the model follows /repo as it is (aa0fba4: fresh function scope per iteration, flag cleared for let initialisers and array elements, wrong-arity self calls compiled as ordinary calls); the one open defect (assignment target compiled with the tail flag, fixes/C09-01) is reported as KNOWN-FINDING, keyed by op line, until the fix is in /repo",
+        "`(def ff (fn ...))` binds the same body under a generated function name, so none of its calls is a self tail call: on the real implementation it is the function evaluated without the optimisation (twin oracle)",
         "the reference evaluator (Spec/RefEval.lean, no tail-call optimisation, fresh frame per call) is 'the same function evaluated without the optimisation'",
         "texts beyond the reference evaluator's fuel are judged on the value only, against a closed form computed by the generator (accumulator sums, closure value lists)",
         "space = sizes of datastack, linearstack (scopes) and addrstack sampled by the host function `probe` while it runs; Go heap usage is out of scope",
@@ -168,7 +214,7 @@ def run(rep):
         rep.violation("machinery-failure", {"what": "driver or harness did not build against the current tree",
                       "theorem_or_correspondence": "build of zydrv/zyh", "log": (prep["drv_out"] + prep["harness_out"])[-3000:]}, no_input=True)
         return
-    rows, stats = V.run_channel("tail", rep.seed, rep.tier, timeout=7200)
+    rows, stats = run_tail_channel(rep.seed, rep.tier)
     rows, jstats = judge(rows)
     nontrivial = lambda op, impl: impl.startswith("ok") or " ;; ok" in impl
     bad_spec, bad_model = V.correspondence(rep, "tail", rows, stats, nontrivial=nontrivial)
